@@ -136,7 +136,8 @@ func (t *htmlTemplate) processTagStart(node *Node, tokenBuf *strings.Builder,
 	if tag == nil {
 		return data, ErrNilTag
 	}
-	tagName := strings.ToLower(tag.Name)
+	// <t:block/> 自闭合且无属性时 标签名带有末尾的 '/'
+	tagName := strings.TrimSuffix(strings.ToLower(tag.Name), "/")
 	if tagName == t.manager.tagPrefix+tagNameBlock {
 		opt.noPrintToken = true // <t:block> ... </t:block>
 	}
